@@ -300,7 +300,8 @@ def harnessTypes : List String :=
   ["i8", "i16", "i32", "i64", "isize", "u8", "u16", "u32", "u64", "usize", "bool", "char", "string", "unit",
    "f64", "rec", "opt(i32)", "opt(u64)", "opt(bool)", "opt(string)", "opt(unit)", "opt(opt(i32))",
    "opt(vec(i32))", "vec(i32)", "vec(u8)", "vec(usize)", "vec(string)", "vec(bool)", "vec(vec(i16))",
-   "vec(opt(i32))", "vec(opt(bool))", "pair(i32,string)", "pair(u8,bool)", "pair(vec(i32),opt(u8))",
+   "vec(opt(i32))", "vec(opt(bool))", "pair(i32,string)", "pair(u8,bool)", "pair(i32,i32)", "vec(pair(i32,i32))", "opt(pair(i32,i32))",
+   "map(string,pair(i32,i32))", "res(pair(i32,i32),string)", "pair(pair(i32,i32),vec(u8))", "pair(vec(i32),opt(u8))",
    "map(string,i32)", "map(i32,vec(u8))", "map(u64,opt(bool))", "set(i32)", "set(string)", "set(u64)",
    "res(i32,string)", "res(vec(u8),i64)"]
 
